@@ -31,7 +31,7 @@ pub fn stage() -> &'static str {
     STAGE.with(|c| c.get())
 }
 
-pub const PERR: [&str; 9] = [
+pub const PERR: [&str; 10] = [
     "UnsupportedVersion",
     "Truncated",
     "TooLarge",
@@ -41,7 +41,10 @@ pub const PERR: [&str; 9] = [
     "SdesPrivPrefixTooLarge",
     "WrongImplementation",
     "PacketTypeMismatch",
+    "variant-unknown-to-the-harness",
 ];
+// not exhaustive on purpose: the crate may grow error variants without breaking this harness
+#[allow(unreachable_patterns)]
 pub fn perr_idx(e: &RtcpParseError) -> usize {
     match e {
         RtcpParseError::UnsupportedVersion(_) => 0,
@@ -53,6 +56,7 @@ pub fn perr_idx(e: &RtcpParseError) -> usize {
         RtcpParseError::SdesPrivPrefixTooLarge { .. } => 6,
         RtcpParseError::WrongImplementation => 7,
         RtcpParseError::PacketTypeMismatch { .. } => 8,
+        _ => 9,
     }
 }
 
